@@ -51,7 +51,9 @@ fn alphabets() -> Vec<(&'static str, Vec<Value>)> {
             ],
         ),
         ("u", vec![json!(0), json!(9223372036854775808u64), json!(u64::MAX), json!(1), json!((1u64 << 53) + 1), json!((1u64 << 63) - 1), json!(u64::MAX - 1), json!(4294967297u64)]),
-        ("f", vec![json!(0.0), json!(-0.0), json!(1.0), json!(1.5), json!(1e308), json!(5e-324), json!(-2.5), json!(0.1), json!(1.0 / 3.0), json!(16777217.0), json!(1e-7), json!(123456789.125), json!(-1e-300)]),
+        ("f", vec![json!(0.0), json!(-0.0), json!(1.0), json!(1.5), json!(1e308), json!(5e-324), json!(-2.5), json!(0.1), json!(1.0 / 3.0), json!(16777217.0), json!(1e-7), json!(123456789.125), json!(-1e-300),
+            // doubles whose shortest round-trip decimal needs 17 significant digits, at extreme magnitudes
+            json!(1.2345678901234567e20), json!(f64::MAX), json!(2.2250738585072014e-308), json!(-1.2345678901234567e-5), json!(9007199254740993.0)]),
         ("b", vec![json!(true), json!(false)]),
         ("e", vec![json!("x"), json!("y"), json!("z")]),
         ("o", vec![json!(null), json!(ABSENT), json!(0), json!(-7), json!((1i64 << 53) + 1), json!(i64::MIN)]),
@@ -262,7 +264,7 @@ pub fn check(tier: &str) -> i32 {
         layouts,
         queries: qs.iter().map(|q| q.text.clone()).collect(),
         judge: &judge,
-        rule: "rows built from per-type value alphabets (18 strings incl. empty / numeric-, keyword-, JSON-looking / 4 KB / quotes+newline / separators, TAB and NUL / lengths 255, 256, 65536; 13 signed integers incl. both extremes and values that do not survive f64, f32 or i32 (2^53+1, 1234567890123456789, MAX-1, 2^31+1, 2^24+1); 8 u64 incl. 2^63, 2^64-1, 2^53+1; 13 floats incl. -0.0, 1e308, 5e-324, 0.1, 1/3, 2^24+1, 1e-7; bools; enum variants; null and absent optionals; 4 spellings of one instant): every pair of alphabet positions shares a zone; x 6 storage tiers x 23 QUERY/REPLAY RETURN variants; every returned cell is compared with the stored value per declared type, core fields must be present and right, non-requested payload columns absent; distinct_nontrivial = (data set, query) pairs judged".into(),
+        rule: "rows built from per-type value alphabets (18 strings incl. empty / numeric-, keyword-, JSON-looking / 4 KB / quotes+newline / separators, TAB and NUL / lengths 255, 256, 65536; 13 signed integers incl. both extremes and values that do not survive f64, f32 or i32 (2^53+1, 1234567890123456789, MAX-1, 2^31+1, 2^24+1); 8 u64 incl. 2^63, 2^64-1, 2^53+1; 18 floats incl. -0.0, 1e308, 5e-324, 0.1, 1/3, 2^24+1, 1e-7 and doubles needing 17 significant digits at extreme magnitudes (1.2345678901234567e20, f64::MAX, 2.2250738585072014e-308); bools; enum variants; null and absent optionals; 4 spellings of one instant): every pair of alphabet positions shares a zone; x 6 storage tiers x 23 QUERY/REPLAY RETURN variants; every returned cell is compared with the stored value per declared type, core fields must be present and right, non-requested payload columns absent; distinct_nontrivial = (data set, query) pairs judged".into(),
         assumptions: vec!["numbers compare numerically (1 == 1.0, -0.0 == 0.0); an optional stored as null or left out may come back as null or be missing".into(), "rows are matched by their (unique, driver-controlled) STORE second".into()],
         describe: &|_| "a stored value / RETURN projection does not round-trip (exact cases in known/C07.*.json)".to_string(),
         extra: json!({}),
